@@ -63,12 +63,15 @@ def run(chk):
         l1 = float(rng.choice([0.001, 0.01, 0.1, 0.5, 2.0]))
         case = {"X": X.tolist(), "y": y.tolist(), "basis": bcfg, "l1_penalty": l1, "classes": ncls}
         calls = []
+        if it % 7 == 0:
+            # another default-constructed model, fitted with solver keywords of its own, must not influence the models that follow
+            impl.sspoc_bystander(n, n_classes=3, extra_kws=True)
         try:
             with record_solvers(calls):
                 model = U.make_sspoc(bcfg, l1_penalty=l1)
                 impl.quiet(model.fit, X, y, quiet=True, refit=False)
         except Exception as e:
-            chk.count("fit-rejected:" + type(e).__name__)
+            chk.violation("impl", "fit-raises", f"SSPOC.fit with default solver settings raised {type(e).__name__}: {e}", case)
             continue
         psi = np.array(model.basis_matrix_inverse_)
         r = psi.shape[0]
